@@ -22,7 +22,7 @@ def mk(n, timeout=900, solver=None, config=(), tag="", real_matcher=False, menu=
             if us[kk] in (n0 + 2, n0 + 5):
                 us[kk] = us[kk] - n0 + n
     return Case("msg-n%d%s" % (n, tag), H, SRCS, defs=["-DN=%d" % n] + (["-DMENU=%d" % menu] if menu else []), config=list(config), unwind=6, unwindset=us,
-                extra_c=["models/mem.c"], remove_bodies=["scpiParser_parseAllProgramData"] + ([] if real_matcher else ["matchCommand"]), link_stubs=["scpiParser_parseAllProgramData"] + ([] if real_matcher else ["matchCommand"]), timeout=timeout, solver=solver, mem_est=8, functions=FUNCS,
+                extra_c=["models/mem.c"], remove_bodies=["scpiParser_parseAllProgramData"] + ([] if real_matcher else ["matchCommand"]), link_stubs=["scpiParser_parseAllProgramData"] + ([] if real_matcher else ["matchCommand"]), timeout=timeout, solver=solver, mem_est=8, functions=FUNCS, optional_witness=(["compound-path-applied"] if n < 6 else []),
                 stubs=["strndup (malloc+copy)", "strnlen/strtol (exact models)", "memmove/memcpy (byte-loop models)", "scpiParser_parseAllProgramData replaced by an assert(false) stub: unreachable because the alphabet has no white space (proved)"] + ([] if real_matcher else ["matchCommand replaced by the reference acceptance relation of the 8 table patterns (pattern acceptance is C03)"]),
                 bounds=dict(message="every well-formed message of 1..%d bytes over {A B C : ; ? * LF}: non-empty units of complete headers separated by ';', optional final LF" % n,
                             table="0 A:B | 1 A:C | 2 A[:B]:C | 3 C | 4 *C | 5 A:B? | 6 B | 7 C?", config=" ".join(config) or "default"))
@@ -30,7 +30,7 @@ def mk(n, timeout=900, solver=None, config=(), tag="", real_matcher=False, menu=
 
 def cases(tier):
     if tier == "quick":
-        return [mk(6)]
+        return [mk(6), mk(5, 900, None, ["-DUSE_DEVICE_DEPENDENT_ERROR_INFORMATION=0"], "-noinfo")]
     return [mk(8, 9000, "cadical"), mk(9, 12000, "cadical"), mk(7, 6000, None, ["-DUSE_DEVICE_DEPENDENT_ERROR_INFORMATION=0"], "-noinfo")]
 
 
